@@ -26,7 +26,9 @@ def families(prop: str, tier: str, seed: int) -> Dict[str, List[gen.Spec]]:
     if prop in ("C01", "C03"):
         fam["edge"] = (gen.family_T_random(seed, 16 if q else 400, min_states=3, max_states=5 if q else 6)
                        + gen.family_H(seed + 1, 3 if q else 120)
-                       + gen.family_D(seed + 2, 3 if q else 120))
+                       + gen.family_D(seed + 2, 3 if q else 120)
+                       + gen.family_F(seed + 4, 8 if q else 150)
+                       + gen.family_S(seed + 5, 10 if q else 150))
         fam["walk"] = gen.family_T_random(seed + 3, 8 if q else 150, min_states=8, max_states=14, density=0.35)
     elif prop == "C02":
         fam["edge"] = (gen.family_S(seed, 40 if q else 500)
